@@ -19,7 +19,8 @@ from .common import plist, frac
 
 THEOREMS = ['Pyiga.Props.C18.' + t for t in (
     'faithful_neg', 'faithful_add', 'faithful_sub', 'join_tucker_bases_spec', 'faithful_can_to_tucker',
-    'from_tensor_order1_raises', 'asarray_idem', 'faithful_tsum', 'step_faithful', 'faithful_seq_partial', 'aca_cross')]
+    'from_tensor_order1_raises', 'asarray_idem', 'faithful_tsum', 'step_faithful', 'faithful_seq_partial', 'aca_cross',
+    'truncTrace_shape', 'truncation_budget_partial')]
 MODULES = ['Pyiga.Model.Tensor', 'Pyiga.Proofs.TensorBasic', 'Pyiga.Proofs.TensorArith', 'Pyiga.Proofs.TensorOps',
            'Pyiga.Proofs.TensorAdd', 'Pyiga.Proofs.TensorAddSpec', 'Pyiga.Props.C18']
 
